@@ -100,6 +100,18 @@ CHECKS = {
              'on every run; NaN-freedom/finiteness down to fractional error 1e-5 judged on the implementation; comparison with 22-digit '
              'quadrature of the defining integral with a conditioning-aware tolerance.',
         design='6 C03'),
+    'C06': dict(
+        technique='Coq proof: redraw-loop lemmas over arbitrary draw streams applied to draw expressions/guards translated from _new_sample_single on every run; invariant by induction over all window-rate histories on a generic arithmetic model instantiated at R (proof) and at binary64 PrimFloat (bit-exact vm_compute correspondence)',
+        text='Theorems in coq/Props/C06.v: for every current state, width and stream of standard draws, the value returned by each translated '
+             'redraw loop lies in [-pi/6,pi/6], [-pi/2,pi/2], [0,1], [-pi/2,pi/2], strike lies in [0,2pi), it is the first in-range Gaussian '
+             'candidate alpha*z + current value, the loop terminates as soon as a draw fits, the constrained chain proposes exactly (0,0), '
+             'and the acceptance intervals are the truncation intervals of the proposal density of C05; for EVERY sequence of window '
+             'acceptance rates the adaptation model keeps every width present, positive and at most max(initial, configured maximum).',
+        note=AX_R + 'the law of numpy.random (i.i.d. standard normals) is assumed: "follows the truncated Gaussian" = first-acceptable-draw theorem + C05; '
+             'Model/Adapt.v is hand-written, tied bit-exactly (primitive floats in the Coq kernel) on exhaustive short and random long '
+             'histories; unit norm / double-couple eigenvalues of proposals and jump behaviour through whole iterations are judged on the '
+             'implementation (proved for the conversion itself in C12).',
+        design='6 C06'),
 }
 
 NA_REASON = 'check not built yet (work in progress; see DESIGN.md section 6)'
